@@ -1298,8 +1298,9 @@ def variants_for(ctx, pid):
     """Executor variants of the product checks (also used by --replay)."""
     if pid == "C12":
         b = build_executor(ctx)
+        # p4: worlds that load a dump get their own deserialised copy of it, as worlds in different processes would
         return [("p1", b, {}, {}), ("p1again", b, {}, {}), ("p2", b, {}, {"GOGC": "10", "GOMAXPROCS": "2"}),
-                ("p3", b, {}, {"GOGC": "400", "GOMAXPROCS": "16"})]
+                ("p3", b, {}, {"GOGC": "400", "GOMAXPROCS": "16"}), ("p4", b, dict(dumpcopy=True), {"GOGC": "50"})]
     if pid == "C14":
         b = build_executor(ctx)
         return [("typed", b, dict(CELLS["typed11"]), {}), ("unsafe", b, dict(CELLS["unsafe1"]), {}),
